@@ -30,6 +30,7 @@ for d in seeded/*/; do
     # keep the (shrunk) failing input as a regression input of that property: replayed first by every run
     f="$(ls replays/${prop}-*.case 2>/dev/null | head -1)"
     if [ -n "$f" ] && ! grep -q "^sig=crash" "$f"; then mkdir -p "regress/$prop"; cp "$f" "regress/$prop/seed-$id.case"; fi
+  elif grep -q '"out_of_reach": true' "$d/meta.json" 2>/dev/null; then res="not detected (documented as out of reach, see meta.json)"
   else res="**MISSED (exit $rc)**"; missed=$((missed+1)); fi
   echo "| $id | $prop | $res | $clause | $evals |" >> "$OUT"
   echo "$id $prop rc=$rc $evals"
